@@ -34,11 +34,19 @@ type RouterDoc struct {
 	Cases   []RouterCase `json:"cases"`
 }
 
+// RouterRun is one registration order executed on a fresh real router.
+//
+//	O  the order, as 1-based indices into the case's canonical registration list
+//	S  result of each attempt: 1 = accepted, 0 = refused (panic)
+//	R  per port (in the order of the case table): the module the FIRST lookup resolved to (index of the registration
+//	   that installed it, 0 = no route, -1 = the lookup panicked)
+//	U  ports whose repeated lookups did not all agree: [port position, every distinct module seen]
 type RouterRun struct {
-	P     int      `json:"p"`
-	Order []Reg    `json:"order"`
-	Steps []string `json:"steps"`
-	Res   [][]int  `json:"res"`
+	P int     `json:"p"`
+	O []int   `json:"o"`
+	S []int   `json:"s"`
+	R []int   `json:"r"`
+	U [][]int `json:"u"`
 }
 
 type RouterLine struct {
@@ -97,58 +105,68 @@ func RunRouterOrder(version string, canon []Reg, order []Reg, ports []string, re
 	for i, r := range canon {
 		idx[r.Key()] = i + 1
 	}
-	run := RouterRun{P: proc, Order: order}
+	run := RouterRun{P: proc, O: []int{}, S: []int{}, R: []int{}, U: [][]int{}}
+	step := func(f func()) {
+		if guarded(f) == "ok" {
+			run.S = append(run.S, 1)
+		} else {
+			run.S = append(run.S, 0)
+		}
+	}
+	var lookup func(p string) int
 	if version == "v1" {
 		pk := portkeeper.NewKeeper()
 		pk.Router = porttypes.NewRouter()
 		for _, r := range order {
 			r := r
-			run.Steps = append(run.Steps, guarded(func() { pk.Router.AddRoute(r.Name(), modV1{tag: idx[r.Key()]}) }))
+			run.O = append(run.O, idx[r.Key()])
+			step(func() { pk.Router.AddRoute(r.Name(), modV1{tag: idx[r.Key()]}) })
 		}
-		for _, p := range ports {
-			var seen []int
-			for range reps {
-				got := 0
-				res := guarded(func() {
-					if m, ok := pk.Route(p); ok {
-						got = m.(modV1).tag
-					}
-				})
-				if res != "ok" {
-					got = -1
-				}
-				seen = appendDistinct(seen, got)
-			}
-			run.Res = append(run.Res, seen)
-		}
-		return run
-	}
-	rtr := api.NewRouter()
-	for _, r := range order {
-		r := r
-		run.Steps = append(run.Steps, guarded(func() {
-			if r.M == "prefix" {
-				rtr.AddPrefixRoute(r.Name(), modV2{tag: idx[r.Key()]})
-			} else {
-				rtr.AddRoute(r.Name(), modV2{tag: idx[r.Key()]})
-			}
-		}))
-	}
-	for _, p := range ports {
-		var seen []int
-		for range reps {
+		lookup = func(p string) int {
 			got := 0
-			res := guarded(func() {
+			if guarded(func() {
+				if m, ok := pk.Route(p); ok {
+					got = m.(modV1).tag
+				}
+			}) != "ok" {
+				return -1
+			}
+			return got
+		}
+	} else {
+		rtr := api.NewRouter()
+		for _, r := range order {
+			r := r
+			run.O = append(run.O, idx[r.Key()])
+			step(func() {
+				if r.M == "prefix" {
+					rtr.AddPrefixRoute(r.Name(), modV2{tag: idx[r.Key()]})
+				} else {
+					rtr.AddRoute(r.Name(), modV2{tag: idx[r.Key()]})
+				}
+			})
+		}
+		lookup = func(p string) int {
+			got := 0
+			if guarded(func() {
 				if rtr.HasRoute(p) {
 					got = rtr.Route(p).(modV2).tag
 				}
-			})
-			if res != "ok" {
-				got = -1
+			}) != "ok" {
+				return -1
 			}
-			seen = appendDistinct(seen, got)
+			return got
 		}
-		run.Res = append(run.Res, seen)
+	}
+	for q, p := range ports {
+		var seen []int
+		for range reps {
+			seen = appendDistinct(seen, lookup(p))
+		}
+		run.R = append(run.R, seen[0])
+		if len(seen) > 1 {
+			run.U = append(run.U, append([]int{q + 1}, seen...))
+		}
 	}
 	return run
 }
